@@ -170,4 +170,29 @@ PROPS = {
             "proved about the accounting primitive: only quota errors, no state touched but the counters, monotone in each quota, amount independent of the quota, x50/x1 split while untyped, decoding-only when typed; the lock-step simulation lifting these to whole messages and the upper bound against the documented cost model are not yet theorems",
         ],
     },
+    "C01": {
+        "profiles": ["debug"],
+        "rule": "a corpus of ~300 Rust types built by macros: 12 element types (bool, u8, u64, i16, f64, String, Nat, Int, Principal, a derived struct, u128, unit) under Option, Vec, Vec<Option>, Option<Vec>, [T;2], pairs, a newtype, Box, "
+                "maps keyed by String/u8/Int/Principal, Result; maps/sets/hash maps for 6 key types x 6 value shapes (nested maps included); derived structs and enums with renames, raw identifiers, unit/tuple/struct/newtype variants, generics, "
+                "recursive and mutually recursive types through Box and maps, define_function!/define_service! references; for each type 12 (thorough: 400) generated values, each under a random call history of 0-4 earlier "
+                "type derivations / round trips of other corpus types / decodes / memo resets on both the encoding and the decoding side; non-trivial = every case; distinct = distinct request lines",
+        "trusted": [
+            "the abstract value of a Rust value is computed by hand-written conversions in harness/src/corpus.rs (independent of the encoder); the Candid type of a Rust type is taken from TypeContainer (Knot nodes it leaves behind are read as names)",
+            "the reader is the specification decoder of C02; equality of floats is bit-for-bit through the abstract value",
+        ],
+        "assumptions": ["hash-map iteration order is not deterministic: for HashMap types vectors are compared as multisets"],
+        "partial": [
+            "the memo-history invariance of T::ty() up to type equality is not a theorem (the memo is a thread-local of the Rust library); it is exercised through random call histories. Proved: the leaf round trips the native primitives rest on, including u128 and Nat through their decoders",
+        ],
+    },
+    "C08": {
+        "profiles": ["debug"],
+        "rule": "every corpus type T of C01 against: messages of its own type, messages of 4 (thorough: 12) random other corpus types (the cross product supplies the layout-alikes: text vs blob, nat vs nat8, principal vs blob, vec nat8 vs vec int8), "
+                "byte-level mutants, messages of random sub/supertypes of T's Candid type with generated inhabitants, and hand-written layout-alike messages; native decoding at T is compared with the specification decoder at T's Candid type "
+                "and with the implementation's own untyped decoding (acceptance and value; element order ignored for maps and sets); messages outside the host limits (128-bit range, array length, duplicate keys) are counted, not compared; "
+                "successful native decodes are repeated under huge quotas; non-trivial = compared cases",
+        "trusted": ["as C01; serde's visitors for std types and the derive macro's visitors are exercised, not modelled", "BoundedVec is not in the corpus yet"],
+        "assumptions": ["host-limit predicates per corpus type are hand-written in harness/src/corpus.rs"],
+        "partial": ["native_eq_untyped is established by correspondence only; theorems: the blob/text/vector coercion facts the specialised paths must respect and the predicate of the known finding"],
+    },
 }
